@@ -108,14 +108,18 @@ impl GameData {
 
             let repository_paths: Vec<DirEntry> = repository_paths
                 .filter_map(Result::ok)
-                .filter(|s| s.file_type().unwrap().is_dir())
+                .filter(|s| s.file_type().is_ok_and(|file_type| file_type.is_dir()))
                 .collect();
 
             for repository_path in repository_paths {
-                if let Some(expansion_repository) = Repository::from_existing_expansion(
-                    platform.clone(),
-                    repository_path.path().to_str().unwrap(),
-                ) {
+                // anything that cannot be an expansion folder (e.g. a name that is not UTF-8) is skipped
+                let repository_path = repository_path.path();
+                let Some(repository_path) = repository_path.to_str() else {
+                    continue;
+                };
+                if let Some(expansion_repository) =
+                    Repository::from_existing_expansion(platform.clone(), repository_path)
+                {
                     self.repositories.push(expansion_repository);
                 }
             }
